@@ -222,8 +222,4 @@ Definition plain (e : string) : bool := negb (str_empty e) && all_chars plain_ch
 (** the last element of the query must not end in '/': PathStringToElements
     drops the last part whenever the STRING ends in '/', escaped or not
     (known finding KF-C19-3) *)
-Definition last_ok (q : list string) : bool :=
-  match rev q with
-  | [] => true
-  | e :: _ => negb (ends_with ch_slash e)
-  end.
+Definition last_ok (q : list string) : bool := negb (ends_with ch_slash (List.last q "")).
